@@ -67,9 +67,9 @@ class G:
         compu = {"c": "IDENTICAL"}
         pt = dct["bt"]
         r = self.d(st.integers(0, 99))
-        # non-identical compu methods only on integers of at most 32 bits: beyond 2^53 odxtools' float
-        # arithmetic is inexact, which is C07's subject (one root cause under one property, E16)
-        if not identical and dct["bl"] <= 32:
+        # float-valued and text compu methods only on integers of at most 32 bits (a double cannot hold wider
+        # integers); LINEAR methods with integer coefficients and integer physical type on every width
+        if not identical and (dct["bl"] <= 32 or r < 15):
             if r < 15:
                 n1 = self.pick([1, 2, -1, 3, 5, -4])
                 n0 = self.pick([0, 1, -3, 10, 100])
